@@ -1,7 +1,7 @@
 (* lemmas about Model/Report.v (C04): conversions, headline = min of the per-food sum, link with the LP rows
    Kcals_Fed_Month / objective / second stage of Model/LP.v, crop split, np.round bounds *)
 From Coq Require Import QArith Qround Lqa Lia List String Bool Arith ZArith.
-From Allfed Require Import Base.StrUtil Gen.UnitTables Model.Units Model.LP Model.Report Proofs.Units.
+From Allfed Require Import Base.StrUtil Gen.UnitTables Model.Units Model.LP Model.Report Proofs.Units Proofs.LPChar.
 Import ListNotations.
 Open Scope Q_scope.
 
@@ -743,4 +743,81 @@ Proof.
     rewrite forallb_map_in.
     2:{ intros m Hm. apply round0_ok. rewrite (IN m Hm). rewrite split_month_adds_up. ring. }
     cbn. discriminate.
+Qed.
+
+(* ---------- feed / biofuel sums handed to the next round ---------- *)
+Lemma pct_ke_bk_formula c : positive_settings c ->
+  m_ke_bk c * (m_pct_ke c * m_bf_pct c) == kcals_monthly c.
+Proof.
+  intros (A & B & C & D).
+  change (m_ke_bk c) with (conversion_formula
+     ((kcal_billion_kcal_to_billion_people c) * (kcal_billion_people_to_kcals_equivalent c)) 1).
+  change (m_pct_ke c) with (conversion_formula (kcal_billion_kcal_to_percent_fed c)
+     ((kcal_billion_kcal_to_billion_people c) * (kcal_billion_people_to_kcals_equivalent c))).
+  rewrite m_bf_pct_eq. unfold conversion_formula. unfold_units. field. qnz.
+Qed.
+
+Lemma use_ke_len x v r : varlen v = f_n x -> List.length (use_ke x v r) = f_n x.
+Proof. intros H. unfold use_ke, lscale. rewrite !map_length. apply to_monthly_list_len; exact H. Qed.
+
+Lemma use_ke_back x v r m : positive_settings (f_conv x) -> f_km x == kcals_monthly (f_conv x) -> (m < f_n x)%nat ->
+  m_ke_bk (f_conv x) * nthq (use_ke x v r) m == r * var_at v m.
+Proof.
+  intros P K Hm. unfold use_ke. rewrite !nthq_lscale, to_monthly_list_nth by exact Hm.
+  pose proof (pct_ke_bk_formula _ P) as F. pose proof (km_pos _ P) as KP.
+  transitivity (var_at v m * (r / f_km x) * (m_ke_bk (f_conv x) * (m_pct_ke (f_conv x) * m_bf_pct (f_conv x)))); [ring|].
+  rewrite F, K. field. intro HE; lra.
+Qed.
+
+Lemma sum5_nth a b c d e m n : List.length a = n -> List.length b = n -> List.length c = n -> List.length d = n ->
+  List.length e = n -> (m < n)%nat ->
+  nthq (sum5 a b c d e) m = nthq a m + nthq b m + nthq c m + nthq d m + nthq e m.
+Proof.
+  intros La Lb Lc Ld Le H. unfold sum5.
+  assert (A1 := ladd_len a b ltac:(lia)).
+  assert (A2 := ladd_len (ladd a b) c ltac:(lia)).
+  assert (A3 := ladd_len (ladd (ladd a b) c) d ltac:(lia)).
+  rewrite !ladd_nth by lia. reflexivity.
+Qed.
+
+Lemma feed_sum_link i c a : lp_settings_ok i c -> forall m, (m < NM i)%nat ->
+  nthq (back_to_bk c (feed_sum_ke (fb_of i c a))) m == feed_sum i a m /\
+  nthq (back_to_bk c (biofuels_sum_ke (fb_of i c a))) m == biofuel_sum i a m.
+Proof.
+  intros (P & K & _) m Hm. unfold back_to_bk, feed_sum_ke, biofuels_sum_ke. rewrite !nthq_lscale.
+  set (x := fb_of i c a).
+  assert (Hn : f_n x = NM i) by reflexivity.
+  assert (L : forall add s r, List.length (use_ke x (vars_of i a add s) r) = NM i).
+  { intros. rewrite use_ke_len; [exact Hn|apply varlen_vars_of]. }
+  assert (B : forall add s r, m_ke_bk c * nthq (use_ke x (vars_of i a add s) r) m == r * bsel add (a s m)).
+  { intros add s r. rewrite <- (var_at_vars_of i a add s m Hm).
+    apply (use_ke_back x (vars_of i a add s) r m P K). rewrite Hn; exact Hm. }
+  split.
+  - cbn [x fb_of vf_cs vf_scp vf_sw vf_cr vf_sf f_sw_kcals].
+    rewrite (sum5_nth _ _ _ _ _ m (NM i)) by (try apply L; exact Hm).
+    rewrite !Qmult_plus_distr_r, !B. unfold feed_sum, bq, bsel. destruct (add_sw i); ring.
+  - cbn [x fb_of vb_cs vb_scp vb_sw vb_cr vb_sf f_sw_kcals].
+    rewrite (sum5_nth _ _ _ _ _ m (NM i)) by (try apply L; exact Hm).
+    rewrite !Qmult_plus_distr_r, !B. unfold biofuel_sum, bq, bsel. destruct (add_sw i); ring.
+Qed.
+
+Lemma rows_feed_biofuel_in_build i ty m : (m < NM i)%nat ->
+  forall r, In r (rows_feed_biofuel i ty m) -> In r (build i ty).
+Proof.
+  intros H r Hr. unfold build. apply in_or_app; right. apply in_or_app; left.
+  apply in_flat_map. exists m. split; [unfold months; apply in_seq; lia|].
+  apply in_or_app; left. exact Hr.
+Qed.
+
+(* corollary: in a human round the reported sums, converted back, are the round's charge *)
+Lemma feed_sum_link_charge i c a : lp_settings_ok i c -> Feasible i ToHumans a -> has_nonhuman i = true ->
+  forall m, (m < NM i)%nat ->
+  nthq (back_to_bk c (feed_sum_ke (fb_of i c a))) m == at_ (feed_charge i) m /\
+  nthq (back_to_bk c (biofuels_sum_ke (fb_of i c a))) m == at_ (biofuel_charge i) m.
+Proof.
+  intros H [_ F] R m Hm. destruct (feed_sum_link i c a H m Hm) as [A B].
+  assert (S : Forall (sat a) (rows_feed_biofuel i ToHumans m)).
+  { rewrite Forall_forall in *. intros r Hr. apply F. apply (rows_feed_biofuel_in_build i ToHumans m Hm r Hr). }
+  apply (sat_rows_feed_biofuel_humans i a m R) in S. destruct S as [S1 S2].
+  rewrite A, B. split; assumption.
 Qed.
